@@ -199,7 +199,7 @@ theorem removable_rm {f g : String} : ∀ {p p' : Plan}, Removable g p → rmPla
           apply hr.2.2
           simp only [Plan.fields, this] at hm
           exact mem_rmSchema_fields hm
-        | ojoin a b c d => exact fun hm => hr.2.2 (mem_rmSchema_fields hm)
+        | ojoin a b c d => trivial
 
 /-- one iteration of the loop body -/
 theorem rm_step {db : Db} {f : String} {p p1 : Plan} {outer : List String}
